@@ -722,6 +722,8 @@ class RealRun(object):
             def time():
                 return run.clock
 
+            monotonic = perf_counter = time
+
             @staticmethod
             def sleep(d):
                 run.clock += d
@@ -1039,6 +1041,14 @@ def bfs_paths(cfg, o, scripts, max_states=3000000):
         return p
 
     paths = [treepath(k) + [t] for (k, t) in nontree] + [treepath(k) for k in terminal]
+    pcs = set()
+    for (_sh, clients, st) in states:
+        for (script, pc, _e, _a) in clients:
+            if script:
+                pcs.add(pc[0])
+        for status in st:
+            pcs.add(status[0])
+    bfs_paths.last_pcs = pcs
     return paths, len(states), nedges, len(terminal)
 
 
@@ -1111,6 +1121,7 @@ def run_job(job):
     if job['kind'] == 'exhaustive':
         paths, ns, ne, nt = bfs_paths(cfg, o, scripts)
         res['states'], res['edges'], res['terminals'] = ns, ne, nt
+        res['pcs'] = sorted(bfs_paths.last_pcs)
         if job.get('sample') and len(paths) > job['sample']:
             import random as _random
             rng = _random.Random(job.get('seed', 0))
@@ -1153,6 +1164,9 @@ def run_job(job):
                     seen_fail.add(key)
                     res['direct'].append({'schedule': path[:k], 'what': fails, 'observation': ob})
                 break
+        for e in decode(obs[-1], len(scripts))['clients']:
+            for code in e['exns']:
+                res['branches'][code] = res['branches'].get(code, 0) + 1
         trie_insert(root, path, obs, res['problems'])
         inroot += 1
         if inroot >= chunk:
@@ -1240,12 +1254,20 @@ def real_subprocess_checks():
         return None
 
     def attempt(name, fn):
-        try:
-            out[name] = fn()
-        except BaseException as e:      # noqa
-            import traceback
-            out[name] = {'ok': False, 'what': 'harness/impl exception %s: %s' % (type(e).__name__, e),
-                         'traceback': traceback.format_exc()[-1500:]}
+        # a real launch has a fixed 5 s budget (remote.py:60); on a loaded machine a healthy server may
+        # need longer to start - that is not what this part decides, so such a run is repeated
+        for k in range(4):
+            try:
+                out[name] = fn()
+                out[name]['attempts'] = k + 1
+                return
+            except BaseException as e:      # noqa
+                import traceback
+                out[name] = {'ok': False, 'what': 'harness/impl exception %s: %s' % (type(e).__name__, e),
+                             'traceback': traceback.format_exc()[-1500:], 'attempts': k + 1}
+                if not (type(e) is Exception and str(e).startswith('Supp server launching timeout exceed')):
+                    return
+                time.sleep(2.0)
 
     # (a) close() ends the session, the server exits, the client works again with ONE new server
     def part_a():
